@@ -544,7 +544,8 @@ func (c *client) receive(r io.Reader) (err error) {
 	defer func() { returnResult(rpc, response, err) }()
 
 	if header.Exception != nil {
-		err = exceptionToError(*header.Exception.ExceptionClassName, *header.Exception.StackTrace)
+		err = exceptionToError(header.Exception.GetExceptionClassName(),
+			header.Exception.GetStackTrace())
 		return
 	}
 
@@ -567,6 +568,12 @@ func (c *client) receive(r io.Reader) (err error) {
 		cellsLen = header.CellBlockMeta.GetLength()
 	}
 	if d, ok := rpc.(canDeserializeCellBlocks); cellsLen > 0 && ok {
+		if uint64(cellsLen) > uint64(size)-uint64(headerLen)-uint64(responseLen) {
+			err = RetryableError{fmt.Errorf(
+				"cellblock length %d is larger than what is left of the response: %d",
+				cellsLen, uint64(size)-uint64(headerLen)-uint64(responseLen))}
+			return
+		}
 		b := b[size-cellsLen:]
 		if c.compressor != nil {
 			b, err = c.compressor.decompressCellblocks(b)
